@@ -476,6 +476,10 @@ pub struct BeamCase {
     /// paging port (an accepted write that changes nothing): the frame in progress is not redrawn
     #[serde(default)]
     pub same_latch_rewritten: bool,
+    /// the byte is not written by the CPU but poked by the host while the machine is stopped at that
+    /// moment of the frame (debugger): before / after the beam counts the same way
+    #[serde(default)]
+    pub via_poke: bool,
 }
 
 pub fn check_beam(c: &BeamCase, rec: &mut Rec) -> Result<(), String> {
@@ -532,7 +536,17 @@ pub fn check_beam(c: &BeamCase, rec: &mut Rec) -> Result<(), String> {
     let window: u16 = if shadow { 0xC000 } else { 0x4000 };
     let r = RegFile { pc: LOOP, sp: 0xBF00, hl: window + off as u16, af: (value as u16) << 8, ..Default::default() };
     mach::set_regs(&mut e, &r);
-    mach::step_over(&mut e, 1)?;
+    if c.via_poke {
+        // the write cycle of LD (HL),A would end 7 T-states from `start`: stop the machine there
+        // (one instruction is executed first — DI at LOOP+1 — so that the machine really stands at
+        // this moment of the frame, with everything before it rendered, as after a breakpoint stop)
+        mach::set_regs(&mut e, &RegFile { pc: LOOP + 1, sp: 0xBF00, ..Default::default() });
+        mach::step_over(&mut e, 1)?;
+        e.execute_poke(OnePoke(vec![PokeAction::mem(window + off as u16, value)]));
+        rec.class("beam:byte-poked-by-the-host");
+    } else {
+        mach::step_over(&mut e, 1)?;
+    }
     if c.same_latch_rewritten && machine == Machine::K128 {
         let (latch, _, _) = e.verif_paging();
         mach::poke_bytes(&mut e, &mut mm, LOOP + 0x10, &[0x01, 0xFD, 0x7F, 0x3E, latch, 0xED, 0x79]);
@@ -622,7 +636,7 @@ pub fn beam_strategy() -> impl Strategy<Value = BeamCase> {
         prop_oneof![(64i32..400), (64i32..400).prop_map(|m| -m), Just(64), Just(-64)],
         (any::<bool>(), any::<bool>()),
     )
-        .prop_map(|(machine, offset, value, margin, (shadow, rewrite))| BeamCase { machine, offset, value, margin, shadow: shadow && machine == Machine::K128, same_latch_rewritten: rewrite && machine == Machine::K128 })
+        .prop_map(|(machine, offset, value, margin, (shadow, rewrite))| BeamCase { machine, offset, value, margin, shadow: shadow && machine == Machine::K128, same_latch_rewritten: rewrite && machine == Machine::K128, via_poke: offset % 4 == 0 })
 }
 
 pub fn run(run: &mut Run) {
@@ -642,7 +656,7 @@ pub fn replay(run: &mut Run, phase: &str, case: &serde_json::Value) -> Result<()
 }
 
 pub const LEVEL: &str = "exploration";
-pub const RULE: &str = "paths: 6912-byte screen contents (uniform; single bits with every attribute value; per-third address-bit patterns; BRIGHT+FLASH everywhere; sparse) delivered by one of {CPU LDIR through 0x4000, CPU LDIR through 0xC000 with bank 5/7 paged, execute_poke through 0x4000 or through 0xC000 with bank 5/7 paged, SCR load, SNA load, SZX load with stored or zlib pages, ROM LD-BYTES served by fast load to 0x4000 or to 0xC000 with bank 5/7 paged} on 48K/128K with either 128K screen bank displayed, after different content had been on screen; then 1..40 frames with the CPU in DI;JR $ — every delivered canvas must equal the independent standard decode of the bank the ULA displays, with one FLASH phase per frame that toggles in runs of exactly 16 frames; on the 128K the other screen bank is then shown by flipping the screen-select bit, and after a generated history of 1..4 real paging-port writes (lock values included) the bank selected by the last accepted write must be displayed; on the 48K a SNA snapshot taken with SP inside the display file (the format parks PC below SP and restores the bytes) must leave the picture as it was. beam-relative: one byte written by LD (HL),A (through 0x4000, or on the 128K through 0xC000 into the displayed bank 7) at a chosen T >= 64 T before (after) the ULA reaches it (on the 128K optionally followed by a paging write of the value already latched) must (must not) appear in the frame in progress and must appear in the next. non-trivial = content with >= 64 distinct byte values delivered by a path other than plain LDIR through 0x4000 (beam phase: every case); distinct = hash of the case";
+pub const RULE: &str = "paths: 6912-byte screen contents (uniform; single bits with every attribute value; per-third address-bit patterns; BRIGHT+FLASH everywhere; sparse) delivered by one of {CPU LDIR through 0x4000, CPU LDIR through 0xC000 with bank 5/7 paged, execute_poke through 0x4000 or through 0xC000 with bank 5/7 paged, SCR load, SNA load, SZX load with stored or zlib pages, ROM LD-BYTES served by fast load to 0x4000 or to 0xC000 with bank 5/7 paged} on 48K/128K with either 128K screen bank displayed, after different content had been on screen; then 1..40 frames with the CPU in DI;JR $ — every delivered canvas must equal the independent standard decode of the bank the ULA displays, with one FLASH phase per frame that toggles in runs of exactly 16 frames; on the 128K the other screen bank is then shown by flipping the screen-select bit, and after a generated history of 1..4 real paging-port writes (lock values included) the bank selected by the last accepted write must be displayed; on the 48K a SNA snapshot taken with SP inside the display file (the format parks PC below SP and restores the bytes) must leave the picture as it was. beam-relative: one byte written by LD (HL),A (through 0x4000, or on the 128K through 0xC000 into the displayed bank 7) at a chosen T >= 64 T before (after) the ULA reaches it (on the 128K optionally followed by a paging write of the value already latched; in a quarter of the cases the byte is poked by the host with the machine stopped at that moment instead) must (must not) appear in the frame in progress and must appear in the next. non-trivial = content with >= 64 distinct byte values delivered by a path other than plain LDIR through 0x4000 (beam phase: every case); distinct = hash of the case";
 pub const ASSUMPTIONS: &[&str] = &[
     "SCR, SNA and SZX files are delivered all at once or in short reads (1, 33/100, nearly-whole) depending on the case seed",
     "decoder is written from the formula in the property; canvas read from the harness FrameBuffer after each completed frame",
